@@ -315,6 +315,24 @@ class Messages(Family):
             b2 = MsgSerializable.from_bytes(got)
         if model_of_msg(b2) != norm(m):
             raise Viol('from_bytes(%s frame) has different field values' % t, None, None)
+        if sel:
+            # frame . edit the SAME message object . frame: every field is given the base message's value by assignment on
+            # the object that was just framed, then the deviating values again
+            base = base_model(t)
+            src = lib_msg(base)
+            keep = dict(vars(msg))
+            for k, v in vars(src).items():
+                setattr(msg, k, v)
+            want2 = P.frame_raw(ch, t, P.payload(ref_model(base)))
+            got2 = msg.to_bytes()
+            if got2 != want2:
+                raise Viol('%s message framed, all fields re-assigned on the same object, framed again: the second frame is not that of the current field values' % t, want2[:24].hex() + ' ' + want2[24:120].hex(), got2[:24].hex() + ' ' + got2[24:120].hex())
+            for k, v in keep.items():
+                setattr(msg, k, v)
+            if msg.to_bytes() != want:
+                raise Viol('%s message after restoring its field values on the same object frames differently' % t, None, None)
+            if parse_stream(io.BytesIO(got2)) is None:
+                raise Viol('the second frame does not parse', None, None)
         return t, bool(sel)
 
 
@@ -400,6 +418,20 @@ class FrameFaults(Family):
         sentinel = P.frame(ch, {'type': 'ping', 'nonce': 0x5555555555555555})
         plen = len(fr) - 24
         if kind == 'trunc':
+            from bitcoin.messages import MsgSerializable
+            # the complete frame is parsed first, through the same entry point (a receiver that just handled this message)
+            with _Quiet():
+                if MsgSerializable.from_bytes(fr) is None and messagemap.get(fr[4:16].rstrip(b'\0')) is not None:
+                    raise Viol('from_bytes of a complete frame returned nothing', 'message', None)
+                try:
+                    r = MsgSerializable.from_bytes(fr[:p])
+                    raise Viol('from_bytes of a frame truncated to %d of %d bytes (right after the complete frame was parsed) returned a message' % (p, len(fr)), 'SerializationTruncationError', repr(r)[:80])
+                except SerializationTruncationError:
+                    pass
+                except Viol:
+                    raise
+                except Exception as e:  # noqa
+                    raise Viol('from_bytes of a frame truncated to %d of %d bytes raised %s' % (p, len(fr), type(e).__name__), 'SerializationTruncationError', str(e)[:80])
             f = io.BytesIO(fr[:p])
             try:
                 r = parse_stream(f)
